@@ -35,7 +35,7 @@ def grammar_text(case, static):
         if case["mark_prod"][i]:
             metas.append("dynamic")
         alts.append("E %s E%s" % (OPNAMES[oi], " {%s}" % ", ".join(metas) if metas else ""))
-    alts.append("atom")
+    alts.append("atom {dynamic}" if case.get("mark_atom") else "atom")
     terms = []
     for i, (oi, prio, assoc) in enumerate(case["ops"]):
         terms.append("%s: '%s'%s;" % (OPNAMES[oi], OPS[oi], " {dynamic}" if case["mark_term"][i] else ""))
@@ -69,11 +69,15 @@ def accept_all(context, from_state, to_state, action, production, subresults):
 
 
 def make_reject(prod_op_name):
+    """prod_op_name None: reject the atom production"""
     def f(context, from_state, to_state, action, production, subresults):
         if action is None:
             return None
-        if action is REDUCE and len(production.rhs) == 3 and production.rhs[1].name == prod_op_name:
-            return False
+        if action is REDUCE:
+            if prod_op_name is None and len(production.rhs) == 1:
+                return False
+            if prod_op_name is not None and len(production.rhs) == 3 and production.rhs[1].name == prod_op_name:
+                return False
         return True
     return f
 
@@ -119,11 +123,46 @@ def check_log(rec, case, ctx, info, who):
         else:
             prod = c[1]
             rhs = [s.name for s in list.__iter__(prod.rhs)]
+            if len(rhs) == 1 and case.get("mark_atom"):
+                if c[2] != 1:
+                    ctx.fail("filter-subresults-do-not-match-production", parser=who, production=str(prod),
+                             subresults=c[2], **info)
+                continue
             if len(rhs) != 3 or rhs[1] not in marked_ops:
                 ctx.fail("filter-called-for-unmarked-production", parser=who, production=str(prod), **info)
             if c[2] != len(rhs):
                 ctx.fail("filter-subresults-do-not-match-production", parser=who, production=str(prod),
                          subresults=c[2], **info)
+
+
+def check_complete(rec, case, toks, ctx, info, who, exact):
+    """every marked decision of this parse reached the filter: a shift call per
+    marked operator token and a reduce call per reduction of a marked
+    production (exactly once each for LR, at least once for GLR)"""
+    import collections
+    marked_terms = {OPNAMES[oi]: OPS[oi] for i, (oi, _, _) in enumerate(case["ops"]) if case["mark_term"][i]}
+    marked_ops = {OPNAMES[oi]: OPS[oi] for i, (oi, _, _) in enumerate(case["ops"]) if case["mark_prod"][i]}
+    shifts = collections.Counter(c[1] for c in rec.calls[1:] if c[0] == "shift")
+    reds = collections.Counter()
+    for c in rec.calls[1:]:
+        if c[0] == "reduce":
+            rhs = [s.name for s in list.__iter__(c[1].rhs)]
+            reds[rhs[1] if len(rhs) == 3 else "atom"] += 1
+    for name, ch in marked_terms.items():
+        need = toks.count(ch)
+        if (shifts[name] != need) if exact else (shifts[name] < need):
+            ctx.fail("marked-shift-did-not-reach-the-filter", parser=who, terminal=name, calls=shifts[name],
+                     tokens=need, **info)
+    for name, ch in marked_ops.items():
+        need = toks.count(ch)   # every operator token is reduced once in a complete parse
+        if (reds[name] != need) if exact else (reds[name] < need):
+            ctx.fail("marked-reduction-did-not-reach-the-filter", parser=who, operator=name, calls=reds[name],
+                     reductions=need, **info)
+    if case.get("mark_atom"):
+        need = toks.count("n")
+        if (reds["atom"] != need) if exact else (reds["atom"] < need):
+            ctx.fail("marked-reduction-did-not-reach-the-filter", parser=who, operator="atom", calls=reds["atom"],
+                     reductions=need, **info)
 
 
 def glr_values(parser, forest):
@@ -174,15 +213,17 @@ def run_case(case, ctx):
         glr = pgl.GLRParser(mk(text_dyn), dynamic_filter=rec_glr)
     elif kind == "reject":
         marked = [i for i, m in enumerate(case["mark_prod"]) if m]
-        if not marked:
+        targets = [case["ops"][i][0] for i in marked] + ([None] if case.get("mark_atom") else [])
+        if not targets:
             ctx.label("discarded:no-marked-production")
             return
-        P = case["ops"][marked[case["reject"] % len(marked)]][0]
-        rec_glr = Recorder(make_reject(OPNAMES[P]))
+        P = targets[case["reject"] % len(targets)]
+        rec_glr = Recorder(make_reject(OPNAMES[P] if P is not None else None))
         glr = pgl.GLRParser(mk(text_dyn), dynamic_filter=rec_glr)
         lr = rec_lr = None
     else:  # precedence on a fully marked grammar
-        full_case = dict(case, mark_prod=[True] * len(case["ops"]), mark_term=[True] * len(case["ops"]))
+        full_case = dict(case, mark_prod=[True] * len(case["ops"]), mark_term=[True] * len(case["ops"]),
+                         mark_atom=False)
         case = full_case
         text_full = grammar_text(full_case, static=False)
         info0 = dict(grammar=text_full, filter=kind)
@@ -206,6 +247,8 @@ def run_case(case, ctx):
             except Exception as e:
                 ctx.fail("lr-with-filter-raises", error=repr(e)[:300], **info)
             check_log(rec_lr, case, ctx, info, "LR")
+            if kind == "accept-all":
+                check_complete(rec_lr, case, toks, ctx, info, "LR", exact=True)
             want = nofilter_lr.parse(text) if kind == "accept-all" else ref_parse(toks, ops)
             if got != want:
                 ctx.fail("lr-result-with-filter-differs", got=repr(got), expected=repr(want), **info)
@@ -225,9 +268,11 @@ def run_case(case, ctx):
         if kind == "accept-all":
             if out.kind != "ok" or glr_values(glr, out.value) != base_vals:
                 ctx.fail("glr-accept-all-differs-from-no-filter", outcome=out.kind, **info)
+            check_complete(rec_glr, case, toks, ctx, info, "GLR", exact=False)
         elif kind == "reject":
             import ast
-            want_vals = sorted(v for v in base_vals if not contains_op(ast.literal_eval(v), OPS[P]))
+            want_vals = [] if P is None else \
+                sorted(v for v in base_vals if not contains_op(ast.literal_eval(v), OPS[P]))
             if not want_vals:
                 if out.kind != "syntax":
                     ctx.fail("glr-reject-filter-should-leave-no-tree", outcome=out.kind, **info)
@@ -266,6 +311,7 @@ def cases(draw):
     return {"ops": ops,
             "mark_prod": draw(st.lists(st.booleans(), min_size=k, max_size=k)),
             "mark_term": draw(st.lists(st.booleans(), min_size=k, max_size=k)),
+            "mark_atom": draw(st.integers(0, 2)) == 0,
             "filter": draw(st.sampled_from(["accept-all", "reject", "precedence"])),
             "reject": draw(st.integers(0, 5)),
             "long": draw(st.lists(st.lists(st.integers(0, 5), min_size=4, max_size=4), max_size=3))}
@@ -284,8 +330,10 @@ def enum_small(tier):
                 for mp in itertools.product([False, True], repeat=2):
                     for mt in itertools.product([False, True], repeat=2):
                         for f in ("accept-all", "reject", "precedence"):
-                            yield {"ops": [[0, p0, a0], [2, p1, a1]], "mark_prod": list(mp),
-                                   "mark_term": list(mt), "filter": f, "reject": 0, "long": [[0, 1, 0, 1]]}
+                            for ma in (False, True):
+                                yield {"ops": [[0, p0, a0], [2, p1, a1]], "mark_prod": list(mp), "mark_atom": ma,
+                                       "mark_term": list(mt), "filter": f, "reject": 1 if ma else 0,
+                                       "long": [[0, 1, 0, 1]]}
     return it()
 
 
